@@ -290,6 +290,44 @@ fn gen_rec(rng: &mut Rng, n: usize, cfg: &GenCfg, bins: &[usize], uns: &[usize],
     t
 }
 
+/// reference tree of a parenthesis-free chain: the root is the rightmost operator of lowest
+/// priority (equal priorities group left to right)
+pub fn tree_from_chain(operands: &[Tree], ops: &[usize], table: &Table) -> Tree {
+    if ops.is_empty() {
+        return operands[0].clone();
+    }
+    let mut root = 0;
+    for (i, o) in ops.iter().enumerate() {
+        let p = table[*o].bin.as_ref().unwrap().prio;
+        let pr = table[ops[root]].bin.as_ref().unwrap().prio;
+        if p <= pr {
+            root = i;
+        }
+    }
+    Tree::bin(
+        ops[root],
+        tree_from_chain(&operands[..=root], &ops[..root], table),
+        tree_from_chain(&operands[root + 1..], &ops[root + 1..], table),
+    )
+}
+
+/// A long chain on ONE nesting level: `n` operands joined by random binary operators without
+/// parentheses; operands are atoms, unary applications or (rarely) small parenthesised groups.
+pub fn gen_chain_tree(rng: &mut Rng, table: &Table, n: usize, cfg: &GenCfg) -> Tree {
+    let bins: Vec<usize> = (0..table.len()).filter(|i| table[*i].bin.is_some()).collect();
+    // few distinct operators per chain, so that equal priorities and repeated operators abound
+    let k = rng.range(1, bins.len().min(4));
+    let chosen: Vec<usize> = (0..k).map(|_| *rng.pick(&bins)).collect();
+    let operands: Vec<Tree> = (0..n)
+        .map(|_| {
+            let leaves = if rng.chance(1, 12) { rng.range(2, 3) } else { 1 };
+            gen_tree(rng, table, leaves, cfg)
+        })
+        .collect();
+    let ops: Vec<usize> = (0..n - 1).map(|_| *rng.pick(&chosen)).collect();
+    tree_from_chain(&operands, &ops, table)
+}
+
 // ---------------------------------------------------------------------------------------------
 // rendering
 
